@@ -28,7 +28,8 @@ its own name, equal values share ONE name} x query form: the tuple (x.id, path1,
 per path) the conjunctions `p1 and p2`, `p1 is not None and p2 is None` (thorough also `p1 == 'x' and p2 != 'x'`,
 `not p1 and p2 is not None`). Arrays: (x.arr[i], x.arr[j]) for i, j in {-1, 0, 2}, each literal or parameter,
 distinct or shared name. Each item of the tuple is judged like the single projection, a conjunction by the
-three-valued conjunction of the single expectations.
+three-valued conjunction of the single expectations. In both tiers these two-operation queries run over the 229
+quick documents (the thorough tier widens their operation space, not their document space).
 
 Oracle: the operation on the decoded value, typed three-valued: a missing key / index / a null is None, a
 comparison with None is unknown (row not selected; for != both answers are accepted), bool(None) is False. Where
@@ -650,18 +651,23 @@ def judge(sub, st, op, json1):
 
 def work(task):
     quick, json1, idxs = task
-    st = state(quick, json1)
-    st['quick'] = quick
     ops = all_ops(quick)
     sub = core.Sub()
+    used = {}
     for i in idxs:
         op = ops[i]
+        # two-operation queries run over the quick document set in both tiers (their space is wide in operations, not documents)
+        st = state(quick or op['kind'] == 'pair', json1)
+        st['quick'] = quick
+        used[id(st)] = st
         sub.count('operations')
+        if op['kind'] == 'pair': sub.count('pair_operations')
         judge(sub, st, op, json1)
-        if i % 211 == 0 and len(sub.samples) < 2:
+        if (i % 211 == 0 or (op['kind'] == 'pair' and i % 97 == 0)) and len(sub.samples) < 2:
             expr, g = op_text(op)
             sub.sample(dict(operation=expr, parameters=g, json1=json1, rows=len(st['docs'])))
-    sub.count('queries', st['n']); st['n'] = 0
+    for st in used.values():
+        sub.count('queries', st['n']); st['n'] = 0
     return sub.dump()
 
 _OPS = {}
